@@ -290,8 +290,11 @@ Fixpoint prop_from (st : ostate) (ops : list zop) (obs : list (list Z)) : bool :
       | 3 => match og st a0 with
              | Some s =>
                  let err := zN (nth 0 ob 0) in let total := zN (nth 1 ob 0) in let active := zN (nth 2 ob 0) in
+                 let lgm := zN (nth 6 ob 0) in let mcap := zN (nth 7 ob 0) in
                  (total =? o_total s)%N                              (* total_weight is exact *)
                  && (active <=? 3 * o_size s / 4)%N                  (* capacity *)
+                 (* the reported configuration is the one of the map in use: sizes below 8 are raised to 8 *)
+                 && (mcap =? 3 * o_size s / 4)%N && (lgm =? N.log2 (o_size s))%N
                  && (if o_uniform s && (o_size s <=? 1024)%N         (* maximum_error <= (3.5 / M) * N *)
                      then (2 * o_size s * err <=? 7 * o_total s)%N else true)
                  && prop_from st r obr
